@@ -76,7 +76,12 @@ func typeNameOfKind(kind string) string {
 }
 
 // VDictXML renders the verification dictionary.
-func VDictXML() string {
+func VDictXML() string { return VDictXMLShift(0) }
+
+// VDictXMLShift renders a variant in which every AVP code is shifted: the same names
+// resolve to different codes (used to check that names resolve through the message's
+// own dictionary).
+func VDictXMLShift(shift uint32) string {
 	var b bytes.Buffer
 	fmt.Fprintf(&b, "<?xml version=\"1.0\" encoding=\"UTF-8\"?>\n<diameter>\n<application id=\"%d\" type=\"auth\" name=\"Verif\">\n<vendor id=\"%d\" name=\"VerifVendor\"/>\n", VApp, VVendor)
 	fmt.Fprintf(&b, "<command code=\"%d\" short=\"VT\" name=\"Verif-Test\"><request><rule avp=\"V-Unsigned32\" required=\"false\" max=\"1\"/></request><answer><rule avp=\"V-Unsigned32\" required=\"false\" max=\"1\"/></answer></command>\n", VCmd)
@@ -93,7 +98,7 @@ func VDictXML() string {
 			extra = "<item code=\"0\" name=\"ZERO\"/><item code=\"1\" name=\"ONE\"/>"
 		}
 		fmt.Fprintf(&b, "<avp name=\"%s\" code=\"%d\" must=\"%s\" may=\"P\" must-not=\"-\" may-encrypt=\"-\"%s><data type=\"%s\">%s</data></avp>\n",
-			d.Name, d.Code, d.Must, v, typeNameOfKind(d.Kind), extra)
+			d.Name, d.Code+shift, d.Must, v, typeNameOfKind(d.Kind), extra)
 	}
 	b.WriteString("</application>\n</diameter>\n")
 	return b.String()
@@ -101,7 +106,9 @@ func VDictXML() string {
 
 // NewVParser returns a fresh parser holding the base dictionary (as extracted from
 // the repository source) and the verification dictionary.
-func NewVParser(repo string) (*dict.Parser, error) {
+func NewVParser(repo string) (*dict.Parser, error) { return NewVParserShift(repo, 0) }
+
+func NewVParserShift(repo string, shift uint32) (*dict.Parser, error) {
 	xs, err := DefaultXML(repo)
 	if err != nil {
 		return nil, err
@@ -114,7 +121,7 @@ func NewVParser(repo string) (*dict.Parser, error) {
 	if err := p.Load(strings.NewReader(base)); err != nil {
 		return nil, fmt.Errorf("load base: %v", err)
 	}
-	if err := p.Load(strings.NewReader(VDictXML())); err != nil {
+	if err := p.Load(strings.NewReader(VDictXMLShift(shift))); err != nil {
 		return nil, fmt.Errorf("load vdict: %v", err)
 	}
 	return p, nil
